@@ -153,6 +153,64 @@ func runServe(args []string) {
 				c.c.Close()
 			}
 			fmt.Fprintf(out, "%s => %d %d %s %s\n", line, t0, t1, hx(got), st)
+		case "P":
+			// P <id>:<hex> ... — the payloads are written at the same moment, one goroutine per connection (the generator keeps
+			// their key sets disjoint, so every serial order has the same replies); echoed, then reported as one C line each
+			type par struct {
+				id, hexp string
+				c        *sconn
+				suffix   []byte
+				payload  []byte
+				t0, t1   int64
+				got      []byte
+				st       string
+			}
+			var ps []*par
+			for _, it := range f[1:] {
+				kv := strings.SplitN(it, ":", 2)
+				if len(kv) != 2 {
+					continue
+				}
+				c, ok := conns[kv[0]]
+				if !ok {
+					c = newSconn(ctx, mgr)
+					conns[kv[0]] = c
+				}
+				seq++
+				token := fmt.Sprintf("verif-sentinel-%d", seq)
+				ps = append(ps, &par{id: kv[0], hexp: kv[1], c: c,
+					payload: append(unhex(kv[1]), []byte(fmt.Sprintf("*2\r\n$4\r\nPING\r\n$%d\r\n%s\r\n", len(token), token))...),
+					suffix:  []byte(fmt.Sprintf("$%d\r\n%s\r\n", len(token), token))})
+			}
+			var wg sync.WaitGroup
+			start := make(chan struct{})
+			for _, p := range ps {
+				wg.Add(1)
+				go func(p *par) {
+					defer wg.Done()
+					<-start
+					p.t0 = time.Now().Unix()
+					go func() {
+						p.c.c.SetWriteDeadline(time.Now().Add(8 * time.Second))
+						p.c.c.Write(p.payload)
+					}()
+					p.st = p.c.waitFor(p.suffix, 8*time.Second)
+					p.t1 = time.Now().Unix()
+					p.got = p.c.take()
+					if p.st == "open" {
+						p.got = p.got[:len(p.got)-len(p.suffix)]
+					}
+					if p.st == "timeout" {
+						p.c.c.Close()
+					}
+				}(p)
+			}
+			close(start)
+			wg.Wait()
+			fmt.Fprintf(out, "%s\n", line)
+			for _, p := range ps {
+				fmt.Fprintf(out, "C %s %s => %d %d %s %s\n", p.id, p.hexp, p.t0, p.t1, hx(p.got), p.st)
+			}
 		case "D":
 			c, ok := conns[f[1]]
 			if !ok {
